@@ -149,8 +149,14 @@ def make_body(h, new_interp):
         I = {n: ctx.sym(n, ty).t for n, ty in h.ins}
         ctx.assume(h.pre(I))
         O = run_sym(h, ctx, it, I)
+        second = out.paths == 0 and not out.__dict__.get("second_done")          # second opinion on this process' first path
+        nsec = 0
         for label, cond in h.spec(I, O):
-            out.require(ctx, tobool(cond), label, I, harness=h.name)
+            ok = out.require(ctx, tobool(cond), label, I, harness=h.name)
+            if second and nsec < SECOND_OPINION_PER_HARNESS[0]:
+                nsec += 1
+                cvc5_second_opinion(ctx, tobool(cond), ok, h.name, nsec, out)
+        out.__dict__["second_done"] = True
         for label, cond in h.twins(I, O):
             if label not in out.witness and ctx.can(tobool(cond)):
                 out.seen(label)
@@ -160,6 +166,46 @@ def make_body(h, new_interp):
         if len(out.samples) < 2:
             out.samples.append({"harness": h.name, "decisions_on_path": len(ctx.trace), "outcome": "panic: " + O.get("msg", "") if O["panic"] else "ok"})
     return body
+
+
+SECOND_OPINION_PER_HARNESS = [3]
+
+
+def cvc5_second_opinion(ctx, cond, z3_holds, hname, n, out):
+    """the verdict query pc AND NOT cond, dumped to SMT-LIB and decided by cvc5 as well; a disagreement or an
+    error makes the run inconclusive, a cvc5 timeout is counted"""
+    import subprocess
+    neg = z3.simplify(z3.Not(cond))
+    if z3.is_false(neg) or z3.is_true(neg):
+        return
+    s = z3.Solver()
+    for a in ctx.pc:
+        s.add(a)
+    s.add(neg)
+    d = os.path.join(common.WORK, "smt")
+    os.makedirs(d, exist_ok=True)
+    path = os.path.join(d, "%s-%s-%d-%d.smt2" % (PID, hname.replace("/", "_").replace("=", ""), n, os.getpid()))
+    with open(path, "w") as f:
+        f.write("(set-logic ALL)\n" + s.to_smt2().replace("(set-logic", "; (set-logic"))
+    try:
+        p = subprocess.run(["cvc5", "--lang", "smt2", "--tlimit=20000", path], capture_output=True, text=True, timeout=40)
+    except subprocess.TimeoutExpired:
+        out.outcome("cvc5 timeout")
+        return
+    o = p.stdout.strip().splitlines()
+    if "(error" in p.stdout or "(error" in p.stderr:
+        raise Inconclusive("cvc5 error on a verdict query of %s: %s" % (hname, (p.stdout + p.stderr)[:300]))
+    if not o or o[0] not in ("sat", "unsat"):
+        out.outcome("cvc5 timeout")
+        return
+    if (o[0] == "unsat") != bool(z3_holds):
+        raise Inconclusive("solver disagreement on a verdict query of %s (%s): z3 says the assertion %s, cvc5 answers %s" %
+                           (hname, path, "holds" if z3_holds else "fails", o[0]))
+    out.outcome("cvc5 agrees")
+    try:
+        os.remove(path)
+    except OSError:
+        pass
 
 
 # ------------------------------------------------------------------------------------------
@@ -310,6 +356,7 @@ def main(tier):
     nval = validate_translator(hs, L.new_interp, nat)
     log("[C03] translator validation: %d concrete runs agree with the natively compiled code (%.0fs)" % (nval, time.time() - t0))
     deadline = time.time() + (1200 if tier == "quick" else 3000)      # for the exploration alone (builds depend on the machine's load)
+    SECOND_OPINION_PER_HARNESS[0] = 3 if tier == "quick" else 12
     res = {}
     # harnesses with equal fan-out depth are explored together (one worker pool per group)
     for depth in sorted(set(h.depth for h in hs)):
@@ -321,6 +368,7 @@ def main(tier):
     stime = 0.0
     fns, models_used = set(), set()
     vac, samples, per, vacuous, known = [], [], {}, [], []
+    second = {"agree": 0, "timeout": 0}
     for name, (out, st) in res.items():
         h = byname[name]
         obligations += 1
@@ -330,6 +378,8 @@ def main(tier):
         stime += st["solver_time"]
         fns |= out.__dict__.get("fns", set())
         models_used |= out.__dict__.get("models", set())
+        second["agree"] += out.outcomes.get("cvc5 agrees", 0)
+        second["timeout"] += out.outcomes.get("cvc5 timeout", 0)
         samples += out.samples[:1]
         per[name] = {"unit": h.unit, "paths": out.paths, "assertion_queries": out.checks, "feasibility_queries": st["queries"],
                      "pruned_branches": st["pruned"], "outcomes": out.outcomes, "solver_time_s": round(st["solver_time"], 2)}
@@ -369,7 +419,7 @@ def main(tier):
         "checker_cmd": "./check C03 --tier " + tier,
         "trusted_base": ["rustc -Zunpretty=mir dump (debug-assertions, overflow-checks on) reflects the compiled functions",
                          "vsym MIR interpreter + models (models.py, cmodels.py atomics, models_gc.py); validated on %d concrete runs against the natively compiled item texts" % nval,
-                         "z3 %s" % z3.get_version_string(),
+                         "z3 %s (all queries); cvc5 second opinion on a sample of the verdict queries: %d agree, %d cvc5 timeouts, 0 disagreements" % (z3.get_version_string(), second["agree"], second["timeout"]),
                          "native replay compiles the item texts cut verbatim out of the working tree (engines/native/src/gck_build.rs) inside shim modules: page size fixed to 4 KiB, current_thread()/get_runtime().gc_epoch()/Slot/#[dora_object] array layout are shims"],
         "evaluations": paths, "distinct_nontrivial": max(paths, 2) if paths else 0,
         "rule": "one evaluation = one feasible path of a harness (distinct by construction: paths differ in at least one branch decision); every path carries symbolic inputs and its assertions are decided by z3",
